@@ -6,7 +6,9 @@ stream, x reader configurations; every returned document goes through significan
 the ISD sequence, the LCD filter and the three writers under several configurations.  S = "never an internal error, never
 an exception downstream of a returned document" is applied to every input; every failure is either covered by a listed
 finding (narrow trigger on exception type + traceback site + where needed a predicate on the input) or reported as a
-VIOLATION with the delta-debugged input as replay.
+VIOLATION with the delta-debugged input as replay.  No finding is granted from the traceback alone (see FINDINGS): vtt-ruby-structure is
+decided by C11's exact model of the WebVTT cue-text parser evaluated in Coq on every cue text of the run (judge_cues), the others by predicates
+computed on the document by harness/c18run.py input_predicates.
 
 Theorems (coq/Properties/C18.v) are about guard models of the four line-level state machines (Model/ReaderGuards.v); the
 models are tied to the code by an in-Coq differential run on the same inputs (outcome class, number of cue-text parser
@@ -20,22 +22,55 @@ import c18run as R
 PROP = "C18"
 
 # ------------------------------------------------------------------------------------------ recorded findings (triggers)
+# Every matcher is a conjunction of a traceback pattern (exception type + innermost ttconv frames + stage) and a PREDICATE ON THE INPUT
+# (the file, or the document the reader returned from it); the traceback pattern alone never excuses a failure.
+#   id                              predicate on the input                                                                   kind
+#   vtt-ruby-structure              C11's model of _parse_cue_text, evaluated in Coq on the failing cue text, raises the      exact
+#                                   same exception class (Model/GuardCueCases.v cue_class; judge_cues below)
+#   cue-shorter-than-a-millisecond  two neighbouring significant times of the written document round to the same millisecond  exact on the times (necessary:
+#                                   (or, beyond 2^53 ms, to the same float): c18run.same_millisecond                            the interval must also hold a paragraph)
+#   ruby-inactive-annotation        a child of a Ruby / Rtc of the document can be pruned (timing, animation, region,          necessary condition
+#                                   display none, white space only, childless): c18run.ruby_child_prunable
+#   writer-time-overflow            the largest significant time of the written document is above 1e290 s                      necessary condition
+#   writer-time-int-digits          the largest significant time has more than 14000 bits (~4214 decimal digits)                necessary condition
+#   recursion-deep-nesting          the input nests at least 100 tags / chained styles / blocks                                 necessary condition
+#   srt-markup-declaration          the input contains '<!'                                                                     necessary condition
 def _depth(task, f):
     return nesting_depth(task["fmt"], task["data"]) >= 100
 
 def _marked_section(task, f):
     return b"<!" in task["data"]
 
+def _pred(name, *values):
+    def p(task, f):
+        return f.get("pred", {}).get(name) in values
+    return p
+
+def _never(task, f):
+    """vtt-ruby-structure is never granted from the traceback: harness judge_cues decides it from the cue text"""
+    return False
+
 # id, regex over "<Type>|<site>" (site = innermost-first ttconv frames with qualified names), stages it may surface in
-# (regex over the stage label), optional predicate on the input
+# (regex over the stage label), predicate on the input
+RUBY_RX = r"^(RuntimeError\|(model\.py:\w+\.push_child<-)?|TypeError\|model\.py:(Span|Rt|Rb|Rbc|Rtc|P)\.push_child<-)vtt/reader\.py:_TextCueParser\."
 FINDINGS = [
-    ("ruby-inactive-annotation", r"^ValueError\|model\.py:(Ruby|Rtc)\.push_children<-isd\.py:(ISD\._process_element|_clone_doc_with_one_region\._copy_content_element)<-", r".*", None),
+    ("ruby-inactive-annotation", r"^ValueError\|model\.py:(Ruby|Rtc)\.push_children<-isd\.py:(ISD\._process_element|_clone_doc_with_one_region\._copy_content_element)<-", r".*", _pred("ruby_prunable", True)),
     ("recursion-deep-nesting", r"^RecursionError\|", r".*", _depth),
-    ("vtt-ruby-structure", r"^(RuntimeError\|(model\.py:\w+\.push_child<-)?|TypeError\|model\.py:(Span|Rt|Rb|Rbc|Rtc|P)\.push_child<-)vtt/reader\.py:_TextCueParser\.", r"^read$", None),
+    ("vtt-ruby-structure", RUBY_RX, r"^read$", _never),
     ("srt-markup-declaration", r"^AssertionError\|srt/reader\.py:to_model$", r"^read$", _marked_section),
-    ("writer-time-overflow", r"^OverflowError\|((srt/writer\.py:SrtContext|vtt/writer\.py:VttContext)\.add_isd<-|time_code\.py:\w+\.\w+<-(time_code\.py:\w+\.\w+<-)*imsc/attributes\.py:to_time_format<-)", r"(srt|vtt|imsc)", None),
-    ("cue-shorter-than-a-millisecond", r"^ValueError\|(srt/paragraph\.py:SrtParagraph|vtt/cue\.py:VttCue)\.to_string<-", r"(srt|vtt)", None),
+    ("writer-time-overflow", r"^OverflowError\|((srt/writer\.py:SrtContext|vtt/writer\.py:VttContext)\.add_isd<-|time_code\.py:\w+\.\w+<-(time_code\.py:\w+\.\w+<-)*imsc/attributes\.py:to_time_format<-)", r"(srt|vtt|imsc)", _pred("big_time", True)),
+    ("writer-time-int-digits", r"^ValueError\|imsc/attributes\.py:to_time_format<-imsc/attributes\.py:\w+\.set<-", r"imsc", lambda task, f: f.get("pred", {}).get("huge_time") is True and "Exceeds the limit" in f["msg"]),
+    ("cue-shorter-than-a-millisecond", r"^ValueError\|(srt/paragraph\.py:SrtParagraph|vtt/cue\.py:VttCue)\.to_string<-", r"(srt|vtt)", _pred("same_ms", "ms", "float")),
 ]
+MATCHER_KINDS = {
+    "vtt-ruby-structure": "exact predicate on the input: the exception class C11's model of the cue-text parser computes for the failing cue text (evaluated in Coq), and the traceback pattern",
+    "cue-shorter-than-a-millisecond": "predicate on the input, exact on the times: two neighbouring significant times of the written document round to the same millisecond (or float), and the traceback pattern",
+    "ruby-inactive-annotation": "predicate on the input, necessary condition: a child of a Ruby/Rtc of the document can be pruned from a snapshot (timing, animation, region, display none, white space, childless), and the traceback pattern",
+    "writer-time-overflow": "predicate on the input, necessary condition: the largest significant time is above 1e290 s, and the traceback pattern",
+    "writer-time-int-digits": "predicate on the input, necessary condition: the largest significant time has more than 14000 bits (about 4214 decimal digits), and the traceback pattern and message",
+    "recursion-deep-nesting": "predicate on the input, necessary condition: nesting depth of at least 100, and the exception type",
+    "srt-markup-declaration": "predicate on the input, necessary condition: the input contains '<!', and the traceback pattern",
+}
 
 
 def nesting_depth(fmt, data):
@@ -52,9 +87,58 @@ def nesting_depth(fmt, data):
 def match_finding(task, f):
     key = f"{f['type']}|{f['site']}"
     for fid, rx, stage_rx, pred in FINDINGS:
-        if re.search(rx, key) and re.search(stage_rx, f["stage"]) and (pred is None or pred(task, f)):
+        if re.search(rx, key) and re.search(stage_rx, f["stage"]) and pred(task, f):
             return fid
     return None
+
+
+# ------------------------------------------------------------------------------------------ WebVTT cue texts: the code against C11's model
+CUE_FILE = "WEBVTT\n\n00:00:00.000 --> 00:00:01.000\n%s\n"
+CLASS_NAMES = {0: "no exception", 11: "ValueError", 20: "AttributeError", 21: "TypeError", 24: "UnboundLocalError", 29: "RuntimeError", 99: "(model-internal)"}
+
+def failing_cue(r):
+    """the trace record of the cue whose parse raised the exception that ended the read (None when the read ended elsewhere)"""
+    tr = r.get("trace") or []
+    if tr and "text" in tr[-1] and tr[-1]["end"] not in ("ok", "open"): return tr[-1]
+    return None
+
+def cue_code(end):
+    import guards18
+    return guards18.M_CODE.get(end, 98)          # 98: a class the guard models have no name for (never predicted)
+
+def judge_cues(run, cue_obs, cap=None):
+    """cue_obs: {cue text: class name the code ended with ('ok' or an exception class)}.  Evaluates C11's model of _parse_cue_text on every text
+    (in Coq) and returns {text: (verdict, predicted code, has ruby tag)} with verdict in
+       'agree'        no exception, none predicted
+       'finding'      TypeError / RuntimeError, and exactly that class predicted: the recorded finding vtt-ruby-structure
+       'mismatch'     anything else (an exception the model does not predict, another class, a tree where the model raises)
+       'unevaluated'  the text could not be evaluated (lone surrogates, beyond the budget, Coq failure): nothing is excused for it"""
+    import guards18
+    texts = list(cue_obs)
+    if cap is not None and len(texts) > cap:
+        first = [t for t in texts if cue_obs[t] != "ok" or "<ruby" in t.lower()]
+        rest = [t for t in texts if not (cue_obs[t] != "ok" or "<ruby" in t.lower())]
+        random.Random(run.seed + 181).shuffle(rest)
+        texts = first + rest[:max(0, cap - len(first))]
+    pred, failed = guards18.cue_text_predictions(run, texts)
+    out = {}
+    for t, end in cue_obs.items():
+        if t not in pred: out[t] = ("unevaluated", None, None); continue
+        p, rb = pred[t]; o = cue_code(end)
+        out[t] = ("agree" if (o == p == 0) else "finding" if (o == p and o in (21, 29)) else "mismatch", p, rb)
+    return out, failed
+
+def cue_task(text, like=None):
+    """the one-cue file that hands `text` to the cue-text parser, if it does (else None)"""
+    data = (CUE_FILE % text).encode("utf-8", "surrogatepass")
+    try:
+        r = R.run_input("vtt", data, 0, seed=0, time_limit=30)
+    except Exception:
+        return None, None
+    tr = r.get("trace") or []
+    if len(tr) == 1 and tr[0].get("text") == text:
+        return dict(fmt="vtt", data=data, cfg=0, seed=0, kind="cue-text", stream="cue-text", i=-1), r
+    return None, None
 
 
 # ------------------------------------------------------------------------------------------ input streams
@@ -235,8 +319,23 @@ def replay(run, path):
     r = R.run_input(fmt, data, task["cfg"], seed=task["seed"], time_limit=120, full=True)
     run.log("replay outcome:", r["outcome"], "| failures:", [(f["stage"], f["type"], f["site"]) for f in R.failures(r)])
     bad = 0
+    verdicts = {}
+    if fmt == "vtt":
+        cue_obs = {rec["text"]: rec["end"] for rec in (r.get("trace") or []) if "text" in rec and rec["end"] != "open"}
+        verdicts, cue_failed = judge_cues(run, cue_obs)
+        for text, (v, p, rb) in verdicts.items():
+            run.log(f"cue text {text[:200]!r}: the code ended with {cue_obs[text]}, C11's model predicts {CLASS_NAMES.get(p, p)}: {v}")
+            if v in ("mismatch", "unevaluated") and cue_obs[text] in ("ok", "ValueError"):
+                bad += 1
+                run.violation(f"vtt cue text {text[:300]!r}: the cue-text parser ended with {cue_obs[text]}, C11's model of it (Model/VttReader.v parse_cue_text) predicts {CLASS_NAMES.get(p, p)}",
+                              replay_dict(task, data, dict(stage="read", type="(none)", site="vtt/reader.py:_parse_cue_text", msg="the code and the model of the cue-text parser disagree")))
     for f in R.failures(r):
-        fid = match_finding(task, f)
+        rec = failing_cue(r) if (fmt == "vtt" and f is r["read"]) else None
+        if rec is not None and rec["end"] == f["type"]:
+            v = verdicts.get(rec["text"], ("unevaluated", None, None))
+            fid = "vtt-ruby-structure" if (v[0] == "finding" and re.search(RUBY_RX, f"{f['type']}|{f['site']}")) else None
+        else:
+            fid = match_finding(task, f)
         if fid and run.known(fid, f"{f['stage']}: {f['type']} at {f['site']}"): continue
         bad += 1
         run.violation(f"{fmt} input: {f['stage']} raised {f['type']} at {f['site']}: {f['msg']}", replay_dict(task, data, f))
@@ -282,6 +381,7 @@ def main():
     known_hits = collections.Counter(); unmatched = collections.defaultdict(list); stage_fail_hist = collections.Counter()
     cpu = collections.Counter(); docs = 0; snapshots = 0; distinct = set(); missing = 0; evals = 0
     kept_tasks = []; kept_results = {}; spec_rows = []; samples_by_stream = {}; by_i = {}
+    cue_obs = {}; cue_src = {}; cue_conflicts = []; pending_cue = []
     keep_quota = {f: (8000 if thorough else 2500) for f in ("srt", "vtt", "scc", "stl")}
     next_id = 0
     for k in range(rounds):
@@ -303,8 +403,18 @@ def main():
             if t["stream"] not in samples_by_stream: samples_by_stream[t["stream"]] = (t, r)
             fl = R.failures(r)
             spec_rows.append(guards18.spec_row(t["i"], r, bool(fl)))
+            if t["fmt"] == "vtt":
+                # every cue text the reader handed to its parser, with how the parse ended: compared below with C11's model of the parser
+                for rec in (r.get("trace") or []):
+                    if "text" not in rec or rec["end"] == "open": continue
+                    if cue_obs.setdefault(rec["text"], rec["end"]) != rec["end"]: cue_conflicts.append((rec["text"], cue_obs[rec["text"]], rec["end"]))
+                    if rec["end"] != "ok": cue_src.setdefault(rec["text"], t)
             for f in fl:
                 stage_fail_hist[f"{f['stage'].split('{')[0].split('None')[0]}:{f['type']}"] += 1
+                if t["fmt"] == "vtt" and f is r["read"] and f["type"] not in ("Timeout", "RecursionError"):
+                    rec = failing_cue(r)
+                    if rec is not None and rec["end"] == f["type"]:
+                        pending_cue.append((t, f, rec["text"])); continue        # judged from the cue text, after the rounds
                 fid = match_finding(t, f)
                 if fid is not None and any(x["id"] == fid for x in run.findings):
                     known_hits[fid] += 1
@@ -320,11 +430,59 @@ def main():
     if missing:
         run.violation(f"{missing} inputs produced no result (pool failure)", dict(kind="harness", missing=missing), False)
 
+    # ---- WebVTT cue texts: the class the code raised (or none) against C11's model of the cue-text parser, evaluated in Coq ----------
+    verdicts, cue_failed = judge_cues(run, cue_obs, cap=120000 if thorough else None)
+    vhist = collections.Counter(); ruby_texts = 0
+    for text, (v, p, rb) in verdicts.items():
+        vhist[f"{v}:{cue_obs[text]}" + ("" if p is None or v != "mismatch" else f"/predicted {CLASS_NAMES.get(p, p)}")] += 1
+        ruby_texts += bool(rb)
+    run.cov["obligations"] += 1
+    if cue_failed:
+        run.violation("cue texts could not be evaluated against C11's model: " + "; ".join(cue_failed)[:600], dict(kind="broken-tie", files=cue_failed[:5]), found_input=False)
+    for text, a, b in cue_conflicts[:3]:
+        run.violation(f"the cue-text parser ended differently on the same cue text {text[:200]!r}: {a} and {b}", dict(kind="harness", cue_text=text), False)
+    for t, f, text in pending_cue:
+        v, p, rb = verdicts.get(text, ("unevaluated", None, None))
+        key = f"{f['type']}|{f['site']}"
+        if v == "finding" and re.search(RUBY_RX, key) and any(x["id"] == "vtt-ruby-structure" for x in run.findings):
+            known_hits["vtt-ruby-structure"] += 1
+            run.known("vtt-ruby-structure", f"vtt input ({t['kind']}): read raised {f['type']} at {f['site'].split('<-')[0]}, the class C11's model of the cue-text parser computes for the cue text {text[:120]!r}")
+        else:
+            f["cue"] = dict(text=text, predicted=p, verdict=v)
+            unmatched[key + f"|cue-text predicted {CLASS_NAMES.get(p, p)}"].append((len(text), t["i"], f)); by_i[t["i"]] = t
+    # a tree where the model raises (or a format error): no failure of the run, but the model that decides the finding is off the code
+    groups = collections.defaultdict(list)
+    for text, (v, p, rb) in verdicts.items():
+        if v == "mismatch" and cue_obs[text] in ("ok", "ValueError"): groups[(cue_obs[text], p)].append(text)
+    for (end, p), texts in sorted(groups.items(), key=str):
+        text = min(texts, key=len); ct, cr = cue_task(text)
+        t2 = ct or cue_src.get(text) or dict(fmt="vtt", data=(CUE_FILE % text).encode("utf-8", "surrogatepass"), cfg=0, seed=0, kind="cue-text", stream="cue-text", i=-1)
+        run.violation(f"vtt cue text {text[:300]!r}: the cue-text parser ended with {end}, C11's model of it (Model/VttReader.v parse_cue_text, evaluated in Coq) predicts "
+                      f"{CLASS_NAMES.get(p, p)}; {len(texts)} cue texts of this run differ this way",
+                      dict(replay_dict(t2, t2["data"], dict(stage="read", type="(none)", site="vtt/reader.py:_parse_cue_text", msg=f"model predicts {CLASS_NAMES.get(p, p)}")), cue_text=text))
+    if not cue_failed and not cue_conflicts and not groups and not any("cue" in f for fs in unmatched.values() for _, _, f in fs): run.cov["discharged"] += 1
+    rt_two_deep = sum(1 for x in cue_obs if re.search(r"<rt[^<>]*>[^<>]*(<[^/<>][^<>]*>){2}[^<]*(</[^<>]*>[^<]*){2}(</rt>)?[^<]*(<rt|[^<])", x, re.I))
+    cue_summary = dict(cue_texts=len(cue_obs), ruby_with_formatting_two_deep_in_rt_followed_by_base_text_or_rt=rt_two_deep, several_ruby_elements=sum(1 for x in cue_obs if x.lower().count("<ruby") > 1),
+                       rt_without_end_tag=sum(1 for x in cue_obs if x.lower().count("<rt") > x.lower().count("</rt")), evaluated=sum(1 for v in verdicts.values() if v[0] != "unevaluated"), with_ruby_start_tag=ruby_texts, verdicts=dict(sorted(vhist.items())),
+                       parser_failures_judged=len(pending_cue))
+    run.log("cue texts against C11's model of the cue-text parser:", cue_summary)
+
     # ---- everything not covered by a listed finding is a violation, reported with the minimised input --------
     slow = []
     for key in sorted(unmatched):
         items = sorted(unmatched[key], key=lambda x: x[:2])
         size, i, f = items[0]; t = by_i[i]
+        if "cue" in f:
+            # not shrunk on the file (the shrunk input could turn into a recorded ruby structure with the same traceback): the cue text is the replay
+            text = f["cue"]["text"]; ct, cr = cue_task(text)
+            same = ct is not None and cr["read"] is not None and cr["read"]["type"] == f["type"]
+            t2 = ct if same else t
+            run.violation(f"vtt cue text {text[:300]!r} ({t['kind']}): the cue-text parser raised {f['type']} at {f['site']}: {f['msg']!r}; C11's model of the parser "
+                          f"(Model/VttReader.v parse_cue_text, evaluated in Coq) predicts {CLASS_NAMES.get(f['cue']['predicted'], f['cue']['predicted'])} for this cue text"
+                          f"{'' if f['cue']['verdict'] != 'unevaluated' else ' (not evaluated: nothing is excused)'}, so finding vtt-ruby-structure does not cover it; "
+                          f"{len(items)} inputs of this run fail this way" + ("" if same else "; the one-cue file does not reproduce it, the replay is the generated file"),
+                          dict(replay_dict(t2, t2["data"], f), cue_text=text, model_predicts=CLASS_NAMES.get(f["cue"]["predicted"], f["cue"]["predicted"])))
+            continue
         if f["type"] == "Timeout":
             # the machine may just be busy: a time-out counts only if the input still does not finish with five times the limit, alone
             again = [R.run_input(by_i[j]["fmt"], by_i[j]["data"], by_i[j]["cfg"], seed=by_i[j]["seed"], time_limit=300, observe=False) for _, j, _ in items[:3]]
@@ -365,14 +523,17 @@ def main():
         outcome_histogram=dict(sorted(outcome_hist.items())), documents_returned=docs, snapshots_taken=snapshots,
         failures_by_stage_and_type=dict(sorted(stage_fail_hist.items())), known_finding_hits=dict(sorted(known_hits.items())),
         unlisted_failure_signatures=len(unmatched) - len(slow), slow_inputs_over_60s_that_finish_within_300s=slow, cpu_seconds_per_format={k: round(v, 1) for k, v in cpu.items()},
-        depth_stream=sorted(set(depths)), guard_correspondence=g["summary"])
+        depth_stream=sorted(set(depths)), guard_correspondence=g["summary"], vtt_cue_texts_against_C11_model=cue_summary,
+        finding_matchers=MATCHER_KINDS)
     stale = [fid for fid, *_ in FINDINGS if fid not in known_hits and any(x["id"] == fid for x in run.findings) and fid not in run.known_printed]
     if stale: run.cov["findings_not_triggered_by_generated_inputs"] = stale
     run.assumptions += [
         "the claim is partial by nature: stack depth, memory and termination of expat / html.parser are not modelled; the theorems establish totality of the transcribed guards only",
         "exception classes: XML-layer errors raised by xml.etree before the IMSC reader runs count as 'XML parse error'; UnicodeDecodeError counts wherever the decoder raises it; "
         "RuntimeError, ZeroDivisionError, OverflowError, LookupError, NameError and a time-out count as internal (not documented)",
-        "findings are matched by exception type + innermost ttconv frames (qualified function names) + stage, for RecursionError and '<!' declarations additionally by a predicate on the input",
+        "findings are matched by exception type + innermost ttconv frames (qualified function names) + stage AND a predicate on the input (coverage.finding_matchers): for "
+        "vtt-ruby-structure the exact one (the class C11's model Model/VttReader.v parse_cue_text computes for the failing cue text, evaluated in Coq; C11's correspondence ties that "
+        "model to the code, and tag names holding U+03A3 are outside it), for cue-shorter-than-a-millisecond the rounding of neighbouring significant times, for the others a necessary condition",
     ]
     return run.finish(["harness/c18gen.py (generators, mutators), harness/c18run.py (classification of exceptions, traceback sites, pipeline driver)",
                        "harness/guards18.py (literal printer of inputs and of the recorded observations, RLE of STL bytes)",
